@@ -1511,3 +1511,7 @@ def run(ctx, shard):
                     Bm = np.asarray(B).reshape((S + 1)**2, -1)
                     ctx.check(np.abs(Bm.conj() @ Bm.T - np.eye((S + 1)**2)).max() <= 1e-10, 'cg/consumer/hermitian-basis-orthonormal',
                               'get_irreducible_hermitian_matrix_basis (built from the CG table) is not orthonormal', {'S_double': S})
+
+
+# thorough tier: every random shard is run this many times with independent random streams (see vmon/runner.py get_shards)
+THOROUGH_REPEAT = 4
